@@ -356,6 +356,22 @@ def judge1(case, impl):
                 return 'matrix with all leading blocks well-conditioned refused by the plain factorisation'
         return None
     # ---- ok
+    v = ok_clauses(cmd, n, rows, out)
+    if v:
+        return v
+    why = must_refuse_plu(rows) if cmd == 'plu' else must_refuse_lu(rows)
+    if why:
+        return MUST_REFUSE + why
+    return None
+
+
+MUST_REFUSE = 'factors returned although the matrix cannot be factored: '
+SINGULAR_SMALL_INT = 'singular matrix with entries in -2..2'
+F21_WITNESS = [[-1.0, -2.0, 1.0, 2.0], [2.0, -1.0, 1.0, -2.0], [-1.0, 1.0, -1.0, -1.0], [-2.0, -1.0, 0.0, 1.0]]
+
+
+def ok_clauses(cmd, n, rows, out):
+    """every clause about returned factors except the must-refuse classes: size, finiteness, structure, |l|<=1, envelope"""
     if out[1] != n:
         return 'factors have the wrong size'
     L, U = out[2][0], out[2][1]
@@ -384,10 +400,26 @@ def judge1(case, impl):
         PA = rows
     if not reconstruct_ok(L, U, PA):
         return 'L*U differs from ' + ('P*A' if cmd == 'plu' else 'A') + ' beyond the componentwise envelope'
-    why = must_refuse_plu(rows) if cmd == 'plu' else must_refuse_lu(rows)
-    if why:
-        return 'factors returned although the matrix cannot be factored: ' + why
     return None
+
+
+def known(case, impl, clause):
+    """F21 (known_findings.d/C09.json): ONLY the must-refuse clause for an exactly singular integer matrix with entries in
+    -2..2 of order >= 4 that plu factored, with finite factors that pass every other clause (structure, |l| <= 1,
+    L U = P A within the envelope).  A slip at n <= 3, a non-finite output or any other clause stays a violation."""
+    if clause != MUST_REFUSE + SINGULAR_SMALL_INT:
+        return None
+    cmd, h, w, rows = parse(case)
+    if cmd != 'plu' or w is None or h != w or h < 4:
+        return None
+    if not is_small_int_matrix(rows, 2) or det_int([[int(x) for x in r] for r in rows]) != 0:
+        return None
+    out = parse_out(impl, 3)
+    if out[0] != 'ok' or not all(finite(m) for m in out[2]):
+        return None
+    if ok_clauses(cmd, h, rows, out) is not None:
+        return None
+    return 'F21 exactly singular -2..2 matrix of order %d factored: rounding residue in the last pivot above n*eps*max|a|' % h
 
 
 def compare(case, impl, model):
@@ -568,6 +600,8 @@ def gen(rng, tier):
             rows = [list(e[0:3]), list(e[3:6]), list(e[6:9])]
             yield from both(rows, 'ex3x3')
     k = 1 if quick else 25
+    # the fixed witness of the known finding F21 (keeps the KNOWN-FINDING line stable)
+    yield from both(F21_WITNESS, 'f21witness')
     # edge sizes
     yield from both([], 'empty')
     for v in (0.0, -0.0, 1.0, -3.5, 2.0 ** -52, 2.0 ** -53, 1e-20, 5e-324, 1e6):
